@@ -99,11 +99,27 @@ def term_rules(prog, res: Result):
         if isinstance(n, ast.Call) and isinstance(n.func, ast.Name) and n.func.id == "hash" and n.args:
             hashed.append(src_of(n.args[0]))
     guard_ok = True
+    parents = {}
     for n in ast.walk(th.node):
-        if isinstance(n, ast.If):
-            body_hashes = [src_of(c.args[0]) for b in n.body for c in ast.walk(b)
-                           if isinstance(c, ast.Call) and isinstance(c.func, ast.Name) and c.func.id == "hash" and c.args]
-            if "self._items" in body_hashes and "is_normalized" not in src_of(n.test) and "normalized()" not in src_of(n.test):
+        for c in ast.iter_child_nodes(n):
+            parents[c] = n
+    for n in ast.walk(th.node):
+        if isinstance(n, ast.Call) and isinstance(n.func, ast.Name) and n.func.id == "hash" and n.args \
+                and src_of(n.args[0]) in ("self._items", "self.items"):
+            # raw items may be hashed only where the term is known to be its own normal form
+            cur, ok = n, False
+            while cur in parents:
+                par = parents[cur]
+                if isinstance(par, ast.If):
+                    t = src_of(par.test)
+                    in_body = any(cur is b or cur in ast.walk(b) for b in par.body)
+                    positive = ("is_normalized" in t or "normalized() is self" in t) and not t.startswith("not ")
+                    negative = t.startswith("not ") and "is_normalized" in t
+                    if (in_body and positive) or (not in_body and negative):
+                        ok = True
+                        break
+                cur = par
+            if not ok:
                 guard_ok = False
     allowed = {"self._items", "self.normalized()", "self.normalized()._items", "self.normalized().items",
                "self.items"}
